@@ -140,4 +140,20 @@ PROPS = {
                          "refstore journal + k-th-call fault injection"],
         "assumptions": ["introspection's required answer to a storage failure is 'not active' (the code answers 200 {active:false})"],
     },
+    "C15": {
+        "proof_module": "OidcModel.Proofs.C15",
+        "theorems": ["C15.c15_validate_sound", "C15.c15_response_declares_contents", "C15.c15_unissuable_type_is_error",
+                     "C05.authorizeTokenExchangeClient_ok"],
+        "cases": {"quick": 2000, "thorough": 30000},
+        "rule": "one token-exchange request per case against a fresh provider (both routers, exchange storage on/off): subject token kind (opaque / JWT access token, refresh token, "
+                "ID token, expired / revoked access token, expired ID token, JWT of a foreign key, rotated refresh token, garbage) x declared type (right, other, jwt, unknown, missing) "
+                "x requested type (absent, access, refresh, id, jwt, unknown) x actor token (none, live, dead, garbage) x scope lists (incl. address, impersonation) x presenter "
+                "(right secret, wrong secret, client without the grant, public client) x blocked user; the returned token is classified by really decrypting / verifying it and looked up in "
+                "the reference storage; non-trivial = not the modal class",
+        "trivial_class": r".*:invalid_request",
+        "trusted_base": COMMON_TB + ["subject / actor token resolution (GetTokenIDAndSubjectFromToken) and the storage policy are ORACLES of the model (universally quantified in the theorems); "
+                                     "the harness supplies the reference storage's ground truth for them",
+                                     "token minting (CreateAccessToken / CreateIDToken) is hand-modelled as 'returns a non-empty token of the requested kind'"],
+        "assumptions": ["'live' = known to the reference storage, unexpired, unrevoked (access / refresh tokens); verifies and unexpired (ID tokens)"],
+    },
 }
